@@ -320,12 +320,12 @@ class QueueWorld(object):
 
     # ---- real relay classes fed by a scripted downstream (the downstream's behaviour is the data choice)
     REAL_MENUS = {
-        'pipe': ['ok', 'temp', 'perm', 'first-ok-rest-temp', 'first-perm-rest-ok'],
-        'pipe-whole': ['ok', 'temp', 'perm'],
-        'maildrop': ['ok', 'temp', 'perm'],
+        'pipe': ['ok', 'temp', 'perm', 'first-ok-rest-temp', 'first-perm-rest-ok', 'killed', 'first-ok-rest-killed'],
+        'pipe-whole': ['ok', 'temp', 'perm', 'killed'],
+        'maildrop': ['ok', 'temp', 'perm', 'killed'],
         'smtp': [{}, {'rcpt0': '251'}, {'rcpt0': '5'}, {'rcpt0': '4'}, {'mail': '4'}, {'data': '5'}, {'eod': '4'}, {'eod': '5'}, {'banner': 'disconnect'},
                  {'rcpt0': '4', 'rcpt1': '5'}, {'eod': 'disconnect'}, {'connect': 'refused'}, {'mail': 'stall'}],
-        'http': ['200+250', '200', '500+451', '503', '400+550', '404', 'drop', 'refused', '200+garbage'],
+        'http': ['200+250', '200', '500+451', '503', '400+550', '404', 'drop', 'refused', '200+garbage', '302', '204', '301+250'],
         'lmtp': [{}, {'rcpt0': '5'}, {'eod0': '5'}, {'eod0': '4'}, {'eod1': '4'}, {'mail': '4'}, {'eod0': '5', 'eod1': '4'}, {'banner': 'disconnect'},
                  {'rcpt0': '251', 'eod1': '4'}, {'rcpt0': '251', 'eod1': '5'}, {'rcpt0': '251'}, {'connect': 'refused'}, {'eod0': 'stall'}],
     }
@@ -389,8 +389,12 @@ class QueueWorld(object):
                     b = 'ok' if i == 0 else 'temp'
                 elif b == 'first-perm-rest-ok':
                     b = 'perm' if i == 0 else 'ok'
+                elif b == 'first-ok-rest-killed':
+                    b = 'ok' if i == 0 else 'killed'
                 if b == 'ok':
                     return (0, b'', b'')
+                if b == 'killed':
+                    return (-9, b'', b'')          # the delivery program died from a signal
                 if kind == 'maildrop':
                     return (75, b'maildrop: busy\n', b'') if b == 'temp' else (1, b'maildrop: no such user\n', b'')
                 return (1, b'4.2.0 try later\n', b'') if b == 'temp' else (1, b'5.1.1 no such user\n', b'')
@@ -414,6 +418,8 @@ class QueueWorld(object):
                     b = 'ok' if i == 0 else 'temp'
                 elif b == 'first-perm-rest-ok':
                     b = 'perm' if i == 0 else 'ok'
+                elif b == 'first-ok-rest-killed':
+                    b = 'ok' if i == 0 else 'killed'
                 if b == 'ok':
                     accepted.update([rcpts[i]] if relay.per_recipient else rcpts)
             return accepted, outcome
@@ -443,8 +449,9 @@ class QueueWorld(object):
                         hs = [('X-Smtp-Reply', '%s; message="%s.0.0 scripted origin answer"' % (hdr, hdr[0]))]
                     if status.startswith('2'):
                         took.append(k)
-                    return response(int(status), {'200': 'OK', '500': 'Internal Server Error', '503': 'Service Unavailable',
-                                                  '400': 'Bad Request', '404': 'Not Found'}[status], hs, b'x')
+                    return response(int(status), {'200': 'OK', '204': 'No Content', '301': 'Moved Permanently', '302': 'Found',
+                                                  '500': 'Internal Server Error', '503': 'Service Unavailable',
+                                                  '400': 'Bad Request', '404': 'Not Found'}[status], hs, b'' if status == '204' else b'x')
                 gevent.spawn(HttpPeer(s_, responder).run)
                 return c
             self.world.patch(shttp, 'socket', types.SimpleNamespace(create_connection=create_connection))
@@ -515,11 +522,13 @@ class QueueWorld(object):
             led.setdefault('fail_event', {})[rcpt] = (how, led['attempts'])
 
     def _apply_outcome(self, o, rcpts, led):
+        # reply texts; with cfg['unicode_replies'] they are not ASCII (legal with SMTPUTF8 / 8-bit replies)
+        T, P = ('t\u00e9mp \u2709', 'p\u00e9rm \u5bc6') if self.cfg.get('unicode_replies') else ('temp', 'perm')
         def temp(i=''):
-            return TransientRelayError('t' + i, Reply('450', '4.0.0 temp' + i))
+            return TransientRelayError('t' + i, Reply('450', '4.0.0 ' + T + i))
 
         def perm(i=''):
-            return PermanentRelayError('p' + i, Reply('550', '5.0.0 perm' + i))
+            return PermanentRelayError('p' + i, Reply('550', '5.0.0 ' + P + i))
         if o == 'ok':
             for r in rcpts:
                 self._settle(led, r, 'ok')
@@ -530,11 +539,11 @@ class QueueWorld(object):
             return Reply('250', '2.0.0 queued downstream')
         if o == 'temp':
             if led is not None:
-                led['last_temp'] = {r: ('450', '4.0.0 temp') for r in rcpts}
+                led['last_temp'] = {r: ('450', '4.0.0 ' + T) for r in rcpts}
             raise temp()
         if o == 'perm':
             for r in rcpts:
-                self._settle(led, r, 'perm', ('550', '5.0.0 perm'))
+                self._settle(led, r, 'perm', ('550', '5.0.0 ' + P))
             raise perm()
         if o == 'boom':
             if led is not None:
@@ -550,10 +559,10 @@ class QueueWorld(object):
                 self._settle(led, r, 'ok')
                 vals.append(None)
             elif c == 't':
-                lt[r] = ('450', '4.0.0 temp' + tag)
+                lt[r] = ('450', '4.0.0 ' + T + tag)
                 vals.append(temp(tag))
             else:
-                self._settle(led, r, 'perm', ('550', '5.0.0 perm' + tag))
+                self._settle(led, r, 'perm', ('550', '5.0.0 ' + P + tag))
                 vals.append(perm(tag))
         if led is not None:
             led['last_temp'] = lt
